@@ -272,6 +272,9 @@ func (e *env) runKey(idx int, k, other kp, rng *mrand.Rand) {
 		{"our", "v2", true}, {"our", "v2", false}, {"our", "v1", true}, {"our", "v1", false},
 		{"foreign", "v2", true}, {"foreign", "v2", false}, {"foreign", "v1", true}, {"foreign", "v1", false},
 		{"twin", "v2", true}, {"twin", "v1", false},
+		// a client-CA certificate whose v2 subject names the hash of ANOTHER key (hand-issued / migrated):
+		// the key that counts is the one the certificate holds, not the one its subject talks about
+		{"our-subject-names-other-key", "v2", false}, {"our-subject-names-other-key", "v2", true},
 	} {
 		cn := name(fmt.Sprintf("renew/%s-ca/%s/own-key=%v", ce.ca, ce.version, ce.ownKey))
 		if !r.WantCase(cn) {
@@ -281,6 +284,13 @@ func (e *env) runKey(idx int, k, other kp, rng *mrand.Rand) {
 		switch {
 		case ce.ca == "our" && ce.version == "v2":
 			der = ders[0] // the certificate the server itself issued
+		case ce.ca == "our-subject-names-other-key":
+			h := sha256.Sum256(other.pub)
+			var gerr error
+			der, gerr = pki.GenerateCertificate(e.logger, e.ourCA, pki.IdentityRequest{PublicKey: k.pub, Subject: pki.MakeSubjectV2(rng.Uint64()%chord.MaxIdentitifer, h[:])})
+			if gerr != nil {
+				panic(gerr)
+			}
 		case ce.ca == "our":
 			der = mk(e.ourCA, "v1", k.pub)
 		case ce.ca == "foreign":
@@ -309,6 +319,18 @@ func (e *env) runKey(idx int, k, other kp, rng *mrand.Rand) {
 			}
 			e.mu.Unlock()
 			key := fmt.Sprintf("renew:%s-ca:%s:own-key=%v", ce.ca, ce.version, ce.ownKey)
+			if ce.ca == "our-subject-names-other-key" && ce.ownKey {
+				// the holder of the certificate's key renewing a certificate with an inconsistent subject:
+				// not judged either way; if it is renewed, the subject must stay what it was
+				if err == nil {
+					if nc, perr := x509.ParseCertificate(resp.GetCertDer()); perr == nil {
+						if oc, perr := x509.ParseCertificate(der); perr == nil && string(nc.RawSubject) != string(oc.RawSubject) {
+							r.Violation("renewed:subject-changed", cn, fmt.Sprintf("subject %q became %q", oc.Subject, nc.Subject), nil)
+						}
+					}
+				}
+				return
+			}
 			if !wantOK {
 				if err == nil {
 					r.Violation(key+":accepted", cn, fmt.Sprintf("renewal succeeded for a certificate issued by %s CA with a %s subject, proof made with the certificate's own key: %v", ce.ca, ce.version, ce.ownKey), map[string]any{"cert_der_b64": base64.StdEncoding.EncodeToString(der)})
@@ -462,7 +484,7 @@ func (e *env) runKey(idx int, k, other kp, rng *mrand.Rand) {
 
 func main() {
 	r := ev.Start("C32", "exploration")
-	r.SetRule("per seeded ed25519 key: two issuances, renewal matrix {client CA, foreign CA, foreign CA carrying the client CA's name} x {v2, v1 subject} x {proof by own key, by another key}, renewal of the renewed certificate (own / other key), {expired, not yet valid} v2 certificates of each of the three CAs with a proof by the own key, corrupted / CA / truncated certificates; distinct by (matrix cell, accepted or not)")
+	r.SetRule("per seeded ed25519 key: two issuances, renewal matrix {client CA, foreign CA, foreign CA carrying the client CA's name} x {v2, v1 subject} x {proof by own key, by another key}, a client-CA v2 certificate whose subject names another key's hash (proof by that other key must be refused), renewal of the renewed certificate (own / other key), {expired, not yet valid} v2 certificates of each of the three CAs with a proof by the own key, corrupted / CA / truncated certificates; distinct by (matrix cell, accepted or not)")
 	rng := r.Rand("c32")
 	logger := zap.NewNop()
 	our := makeCA("verif client ca")
